@@ -148,6 +148,8 @@ def params_list(tier):
             for b in blackouts:
                 for other in (False, True, "burst"):
                     cfgs = [("cs", 1)] if tier == "quick" else [("cs", 1), ("sc", 0), ("sc", 1), ("cs", 0)]
+                    if b is None and other in (False, True):
+                        cfgs = cfgs + ([("cs", 8)] if tier == "quick" else [("cs", 8), ("sc", 20)])   # RTT > resend interval
                     for order, latency in cfgs:
                         if tier == "quick" and other and b is not None:
                             continue
